@@ -145,6 +145,17 @@ pub fn act_flashloan(sim: &mut Sim, ctx: &mut Ctx) -> Option<Tx> {
             ixs.insert(pos, Ix::foreign("failing_foreign", ctx.world.failing_foreign, vec![0; 8]));
             sim.stats.fault("tx_abort_inside_bracket");
         }
+        9 | 10 => {
+            // a genuine end for this account placed BEFORE the start, which names it
+            let pos = start_pos;
+            ixs.insert(pos, ix::end_flashloan(ma, u.authority, end_metas.clone()));
+            // start is now at pos + 1 and names the earlier end
+            ixs[pos + 1] = ix::start_flashloan(ma, u.authority, pos as u64);
+            if ctx.rng.chance(1, 2) {
+                ixs.pop(); // no closing end at all
+            }
+            sim.stats.fault("tx_flashloan_end_before_start");
+        }
         8 => {
             // end points at a foreign program's instruction
             let n = ixs.len();
